@@ -140,22 +140,42 @@ def c17_r2(ctx):
     nx = start_next(facts)
     sym = q.sym(facts, nx)
     found = False
+
+    def far_guard_ok(dnf):
+        return q.cond_has(dnf, lambda a: a[0] == 'is' and a[2] == 'FlushAndRestart')
+
     for bi, t in q.calls(nx, WF_UPDATE):
         if len(t['args']) > 2 and 'MAX' in (op_const(t['args'][2]) or ''):
             found = True
             dnf = q.cond_of_block(facts, nx, bi)
             sender = render(strip(sym.operand(t['args'][1])))
             ctx.inst('Start::next|update(MAX)', {'at': t['at'], 'sender argument': sender, 'conditions': q.show_dnf(dnf)})
-            if not q.cond_has(dnf, lambda a: a[0] == 'is' and a[2] == 'FlushAndRestart'):
+            if not far_guard_ok(dnf):
                 ctx.viol('%s|max-wrong-edge' % nx.path, t['at'],
                          'WatermarkFrontier::update(sender, MAX) is not guarded by "the received item is FlushAndRestart"', None)
             if 'batch_iter' not in sender:
                 ctx.viol('%s|max-wrong-sender' % nx.path, t['at'],
                          'the replica marked as ended (`%s`) is not the sender of the current batch' % sender, None)
     if not found:
-        ctx.viol('%s|no-max-update' % nx.path, nx.at,
-                 'Start::next never marks an upstream replica that ended its iteration as +infinity in the watermark '
-                 'frontier: a finished replica holds the others back', None)
+        # the marking may live in a helper of the frontier: it must then be unconditional inside the helper
+        for bi, t in nx.calls():
+            callee = facts.fn(t['callee'].get('resolved') or t['callee'].get('path') or '', required=False)
+            if callee is None or callee.impl_adt != WF or callee.path == WF_UPDATE:
+                continue
+            dnf_site = q.cond_of_block(facts, nx, bi)
+            if not far_guard_ok(dnf_site):
+                continue
+            for b2, t2 in q.calls(callee, WF_UPDATE):
+                if len(t2['args']) > 2 and 'MAX' in (op_const(t2['args'][2]) or ''):
+                    inner = q.cond_of_block(facts, callee, b2)
+                    extra = [a for c in inner for a in c]
+                    ctx.inst('Start::next|%s -> update(MAX)' % callee.name, {'at': t2['at'], 'conditions inside the helper': q.show_dnf(inner)})
+                    found = True
+                    if extra:
+                        ctx.viol('%s|max-conditional' % callee.path, t2['at'],
+                                 'a replica that ended its iteration is entered as +infinity only under %s: otherwise its last watermark '
+                                 'keeps counting in the minimum and, once the others pass it, the frontier freezes until the end of the '
+                                 'stream' % q.show_dnf(inner), None)
     # reset on the FlushAndRestart return path, rebuild in setup
     rs = q.calls(nx, WF + '::reset')
     rets = q.returns_variant(nx, SE, 'FlushAndRestart')
